@@ -314,8 +314,25 @@ func (m *mockPeer) WriteMsg(code p2p.MsgCode, msg []byte) error {
 	m.r.add(ev{kind: "write", code: code, content: append([]byte(nil), msg...)})
 	return nil
 }
-func (m *mockPeer) SetWriteDeadline(time.Duration)                   {}
-func (m *mockPeer) RNodeID() *p2p.NodeID                             { id := m.id; return &id }
+func (m *mockPeer) SetWriteDeadline(time.Duration) {}
+func (m *mockPeer) RNodeID() *p2p.NodeID {
+	// stableBlockLoop calls peers.DelayNodes -> peer.NodeID -> RNodeID once per NewStableBlock event it has taken off the bus
+	pcs := make([]uintptr, 8)
+	n := runtime.Callers(2, pcs)
+	frames := runtime.CallersFrames(pcs[:n])
+	for {
+		f, more := frames.Next()
+		if strings.HasSuffix(f.Function, "(*ProtocolManager).stableBlockLoop") {
+			m.r.add(ev{kind: "stable.received"})
+			break
+		}
+		if !more {
+			break
+		}
+	}
+	id := m.id
+	return &id
+}
 func (m *mockPeer) RAddress() string                                 { return "10.0.0.1:7001" }
 func (m *mockPeer) LAddress() string                                 { return "10.0.0.2:7002" }
 func (m *mockPeer) DoHandshake(*ecdsa.PrivateKey, *p2p.NodeID) error { return nil }
